@@ -62,6 +62,18 @@ pub fn compare(st: &Stmt, expect: &Outcome, got: &Outcome) -> Result<(), (String
     }
 }
 
+/// When the cluster and the single node disagree, the in-memory registration of the same
+/// rows arbitrates: if the cluster agrees with memory and the single-node Parquet run does
+/// not, the defect is in the single node's Parquet path (C04's subject, reported there),
+/// not in distribution.
+pub async fn arbiter_blames_single_node(world: &World, st: &Stmt, single: &Outcome, cluster: &Outcome) -> bool {
+    let mem = outcome_of(world.mem.sql(&st.sql).await);
+    if !matches!(mem, Outcome::Rows(_)) {
+        return false;
+    }
+    compare(st, &mem, cluster).is_ok() && compare(st, &mem, single).is_err()
+}
+
 /// Shrink candidates shared by the cluster checks: single statement, fewer rows, fewer nodes.
 pub fn shrink_candidates(ov: &Value, v: &Violation) -> Vec<Value> {
     let mut out = Vec::new();
@@ -176,6 +188,10 @@ pub fn run_c09(_prop: &str, _tier: Tier, run_seed: u64, ov: &Value) -> RunOut {
             }
             out.case_hashes.push(fnv(format!("{shape}|{}|{count}|{}", st.family, sends).as_bytes()) ^ fnv(st.sql.as_bytes()));
             if let Err((sym, d)) = compare(st, &expect, &got) {
+                if arbiter_blames_single_node(&sc.world, st, &expect, &got).await {
+                    out.bump("probe.single_node_parquet_path_disagrees_with_memory_and_cluster");
+                    continue;
+                }
                 viol.push(violation(
                     "distributed-equals-single-node",
                     &sym,
